@@ -107,6 +107,15 @@ int64_t ExpressionDispatcher::dispatch_expression(const ASTNode *node) {
 
         // その他の演算子は従来通り
         int64_t left = dispatch_expression(node->left.get());
+
+        // 短絡評価: && / || は左オペランドで結果が決まる場合、右オペランドを評価しない
+        if (node->op == "&&" && left == 0) {
+            return 0;
+        }
+        if (node->op == "||" && left != 0) {
+            return 1;
+        }
+
         int64_t right = dispatch_expression(node->right.get());
 
         int64_t result = 0;
